@@ -506,3 +506,33 @@ def run_check(pid, tier, seed, prop, replay=None):
           f"evaluations={ctx.evaluations} distinct_nontrivial={len(ctx.nontrivial)} findings={len(ctx.findings)} "
           f"violations={nviol} wall={ctx.elapsed():.1f}s")
     return exit_code
+
+
+# ----------------------------------------------------------------------------------------
+# wall-clock guard for a single case (a hang is an infrastructure event, never a violation)
+# ----------------------------------------------------------------------------------------
+
+class CaseTimeout(Exception):
+    pass
+
+
+class time_limit:
+    """`with time_limit(5): …` raises CaseTimeout in the main thread after the given seconds."""
+
+    def __init__(self, seconds):
+        self.seconds = seconds
+
+    def _handler(self, signum, frame):
+        raise CaseTimeout(f"case exceeded {self.seconds}s")
+
+    def __enter__(self):
+        import signal
+        self.old = signal.signal(signal.SIGALRM, self._handler)
+        signal.setitimer(signal.ITIMER_REAL, self.seconds)
+        return self
+
+    def __exit__(self, *a):
+        import signal
+        signal.setitimer(signal.ITIMER_REAL, 0)
+        signal.signal(signal.SIGALRM, self.old)
+        return False
